@@ -324,7 +324,8 @@ func largeFileReceive(wrt http.ResponseWriter, req *http.Request) {
 		return
 	}
 
-	fdef, err = store.Files.FinishUpload(fdef, true, size)
+	// FinishUpload updates fdef in place; it returns nil on failure.
+	_, err = store.Files.FinishUpload(fdef, true, size)
 	if err != nil {
 		logs.Info.Println("media upload: failed to finalize", file, "key", fdef.Location, err)
 		// Best effort cleanup.
